@@ -91,6 +91,13 @@ def gen_hw_program(rng, straight):
             else:
                 body.append("for (d = 0; d < %d; d++) { %s }" % (rng.randint(1, 3), " ".join(inner)))
             evs = None
+    # a third of the programs put a run of their statements into an inline function (the optimiser then meets
+    # the explicit accesses as an expansion inside the caller), sometimes called twice in a row
+    if len(body) >= 2 and rng.random() < 0.34:
+        i = rng.randrange(0, len(body) - 1); j = rng.randrange(i + 1, len(body) + 1)
+        inner = body[i:j]
+        src = PRE + "inline void part() {\n  " + "\n  ".join(inner) + "\n}\nvoid main() {\n  " + "\n  ".join(body[:i] + ["part();"] + body[j:]) + "\n}\n"
+        return src, (evs if straight else None)
     src = PRE + "void main() {\n  " + "\n  ".join(body) + "\n}\n"
     return src, (evs if straight else None)
 
